@@ -583,7 +583,8 @@ func RunC13(c *Ctx, r *Report) {
 		// latch block with its own φ-nodes is looked through)
 		skipPath := append([]*ssa.BasicBlock{def}, path...)
 		if len(path) == 0 {
-			skipPath = []*ssa.BasicBlock{def, skip}
+			// the skip edge leads straight to the loop header: the test block itself is the header's predecessor
+			skipPath = []*ssa.BasicBlock{def}
 		}
 		onSkip := map[*ssa.BasicBlock]bool{}
 		for _, b := range skipPath {
